@@ -56,6 +56,7 @@ func init() {
 		ruleFloatPure(inWKB, nil, 70),
 		ruleMemberLoops(inWKB, 10, 0),
 		ruleWKBTables,
+		ruleScanCoercion,
 	)
 
 	register("C02",
@@ -83,8 +84,14 @@ func init() {
 	register("C05",
 		"Structural necessary conditions of 'decoders are total and allocation-bounded': no guard arithmetic on a decoded count can wrap in a narrow unsigned type. (Further clauses are added by the shape interpreter.)",
 		ruleNarrowArith(inDecoders, 2),
-		ruleShapeFaults(shapeConfig{label: "hostile input", keep: func(string) bool { return false }, extra: hostileEntries, floor: 21,
-			override: hostileParams(40, 24), hostile: true, lim: Limits{MaxStates: 6000, MaxSteps: 20000, MaxVisits: 3, MaxDepth: 40}}),
+		func(c *Ctx) {
+			nb, ns, lim := 24, 16, Limits{MaxStates: 2500, MaxSteps: 20000, MaxVisits: 3, MaxDepth: 40}
+			if c.Thorough() {
+				nb, ns, lim = 96, 32, Limits{MaxStates: 20000, MaxSteps: 60000, MaxVisits: 4, MaxDepth: 48}
+			}
+			ruleShapeFaults(shapeConfig{label: "hostile input", keep: func(string) bool { return false }, extra: hostileEntries, floor: 29,
+				override: hostileParams(nb, ns), hostile: true, lim: lim})(c)
+		},
 	)
 
 	register("C07",
@@ -439,4 +446,6 @@ var hostileEntries = []string{
 	"encoding/internal/wkbcommon.readPoint", "encoding/internal/wkbcommon.readMultiPoint", "encoding/internal/wkbcommon.readLineString",
 	"encoding/internal/wkbcommon.readMultiLineString", "encoding/internal/wkbcommon.readPolygon", "encoding/internal/wkbcommon.readMultiPolygon",
 	"encoding/internal/wkbcommon.readCollection",
+	"encoding/wkt.Unmarshal", "encoding/wkt.UnmarshalPoint", "encoding/wkt.UnmarshalMultiPoint", "encoding/wkt.UnmarshalLineString",
+	"encoding/wkt.UnmarshalMultiLineString", "encoding/wkt.UnmarshalPolygon", "encoding/wkt.UnmarshalMultiPolygon", "encoding/wkt.UnmarshalCollection",
 }
